@@ -217,6 +217,10 @@ impl Cx {
     }
 }
 
+/// set by the libFuzzer targets: sanitizer builds use far more stack, so environment-sized experiments (the 64 KiB-stack thread
+/// of C01) are skipped there
+pub static FUZZ_MODE: std::sync::atomic::AtomicBool = std::sync::atomic::AtomicBool::new(false);
+
 pub fn hash64<H: Hash + ?Sized>(h: &H) -> u64 {
     // DefaultHasher::new() uses fixed keys: deterministic across runs and processes
     let mut s = std::collections::hash_map::DefaultHasher::new();
